@@ -82,7 +82,9 @@ LWork ==       \* handle everything that is queued (resolves the pending futures
   /\ pending' = pending - todo /\ todo' = 0
   /\ loopRef' = FALSE
   /\ pc' = "l_wait"
-  /\ AfterDrop(userRef, FALSE, pending - todo)
+  \* seeded model bug: the event is cleared here, before the wait, instead of after the wake-up: a set() that
+  \* arrived since the flags were read at the top of the iteration is lost
+  /\ IF Bug = "clear_before_wait" THEN evt' = FALSE /\ UNCHANGED woken ELSE AfterDrop(userRef, FALSE, pending - todo)
   /\ actor' = LOOP /\ NoEmit
   /\ UNCHANGED <<upc, userRef, flag, exiting, wdl, plan, now, joined>>
 
